@@ -230,9 +230,16 @@ class _Parser(Generic[EXPR]):
     def consume_mandatory_end_parentheses(self) -> None:
         self.parser.consume_mandatory_constant_string_that_must_be_unquoted_and_equal(
             [')', ] + self._infix_op_names(),
-            lambda x: None,
+            self._must_be_end_parenthesis,
             'Expression inside ( )',
         )
+
+    @staticmethod
+    def _must_be_end_parenthesis(constant: str) -> None:
+        if constant != ')':
+            raise SingleInstructionInvalidArgumentException(
+                'Expression inside ( ): Expecting ). Found: ' + constant
+            )
 
     def _infix_op_names(self) -> List[str]:
         return collection.concat_list([
